@@ -29,6 +29,7 @@ static const TSLanguage *dump(const char *id, const char *so, const char *fn, un
   if (!f) { fprintf(stderr, "dlsym %s\n", fn); return NULL; }
   const TSLanguage *l = f();
   unsigned total = l->symbol_count + l->alias_count;
+  fflush(stdout);
   printf("lang %s %u %u %u %u %u %u %u %u\n", id, l->symbol_count, l->alias_count, l->token_count,
          l->state_count, l->large_state_count, l->field_count, small_len, (unsigned)l->keyword_capture_token);
   printf("pt");
@@ -59,9 +60,9 @@ static const TSLanguage *dump(const char *id, const char *so, const char *fn, un
     LookaheadIterator it = ts_language_lookaheads(l, (TSStateId)s);
     printf("la %u", s);
     unsigned guard = 0;
-    while (ts_lookahead_iterator__next(&it) && guard++ < 70000)
+    while (guard++ < l->symbol_count + 8 && ts_lookahead_iterator__next(&it))
       printf(" %u:%u:%u:%u", (unsigned)it.symbol, (unsigned)it.table_value, (unsigned)it.next_state, (unsigned)it.action_count);
-    bool again = ts_lookahead_iterator__next(&it) || ts_lookahead_iterator__next(&it);
+    bool again = guard > l->symbol_count + 8 || ts_lookahead_iterator__next(&it) || ts_lookahead_iterator__next(&it);
     printf(" end:%d\n", again ? 1 : 0);
   }
   for (unsigned i = 0; i < total; i++) {
@@ -79,6 +80,7 @@ static const TSLanguage *dump(const char *id, const char *so, const char *fn, un
     printf(" %u\n", (unsigned)ts_language_field_id_for_name(l, name, (uint32_t)strlen(name)));
   }
   printf("endlang %s\n", id);
+  fflush(stdout);
   return l;
 }
 
